@@ -221,7 +221,14 @@ impl<'s, const M: usize> Exec<'s, M> {
                 }
             }
         }
-        self.alloc_done(true, out, res.map(|r| r.0), size, align, Expect::Pat(seed), true, cc0);
+        // the block is what came back: the whole returned slice is the caller's, so the whole of it
+        // has to lie in arena memory, clear of bookkeeping and of every other live block (with the
+        // crate as it is the slice is exactly as long as the request)
+        let extent = res.map(|r| r.1.max(size)).unwrap_or(size);
+        if extent > size {
+            self.stats.hit("allocate_returned_more_than_requested");
+        }
+        self.alloc_done(true, out, res.map(|r| r.0), extent, align, Expect::Pat(seed), true, cc0);
     }
 
     fn pick_raw(&self, i: usize) -> Option<(usize, Block)> {
@@ -347,7 +354,8 @@ impl<'s, const M: usize> Exec<'s, M> {
                     // let on_block report it with the C04 signature; also C12
                     self.violate("C12", "misaligned-result", what, format!("addr%{}={}", new.align(), na % new.align().max(1)));
                 }
-                if self.viol.is_empty() && !self.on_block(na, new.size(), new.align(), Expect::Opaque, true) {
+                let extent = nlen.max(new.size());
+                if self.viol.is_empty() && !self.on_block(na, extent, new.align(), Expect::Opaque, true) {
                     // C01/C04 violation: the same fact is a C12 violation ("does not overlap any
                     // other live block", "fits the new layout")
                     let v = self.viol.last().cloned();
@@ -405,7 +413,7 @@ impl<'s, const M: usize> Exec<'s, M> {
                         }
                     }
                     if new.size() > 0 {
-                        self.fill_pat(na, new.size(), seed);
+                        self.fill_pat(na, extent, seed);
                         if let Some(b) = self.blocks.get_mut(&na) {
                             b.expect = Expect::Pat(seed);
                         }
@@ -929,7 +937,11 @@ impl<'s, const M: usize> Exec<'s, M> {
         // checked after every step, not only when the script happens to iterate - an operation that
         // silently moves the bump pointer over a live block (a deallocate that gives back too much)
         // is otherwise only seen once a later allocation has already overlapped the block
-        if self.opts.focus == Some("C10")
+        // C12 in focus: the same test after every Allocator-trait call is "deallocate (grow, shrink)
+        // never affects the others" - a live block that the arena no longer counts as allocated has
+        // been affected, even before anything is written over it
+        let c12_step = self.opts.focus == Some("C12") && matches!(op, Op::ADealloc { .. } | Op::AGrow { .. } | Op::AShrink { .. } | Op::AAlloc { .. });
+        if (self.opts.focus == Some("C10") || c12_step)
             && self.viol.is_empty()
             && self.bump.is_some()
             && !self.in_handover
@@ -947,7 +959,11 @@ impl<'s, const M: usize> Exec<'s, M> {
                     }
                 }
                 if let Some((size, c)) = missing {
-                    self.violate("C10", "live-block-not-in-exactly-one-item", "", format!("{}-byte block in {} items", size, c));
+                    if c12_step {
+                        self.violate("C12", "allocator-call-affected-live-block", "", format!("after {} a live {}-byte block lies in {} of the regions the arena reports as allocated", op.kind(), size, c));
+                    } else {
+                        self.violate("C10", "live-block-not-in-exactly-one-item", "", format!("{}-byte block in {} items", size, c));
+                    }
                 }
             }
         }
